@@ -113,8 +113,14 @@ def check_vee(case, acc):
     """Two long branches that fork directly at the root (a deep 'V'), plus twigs: pairs across the fork at many depths."""
     from .. import big
 
-    root, left, right, twigs = big.build_double_ladder(nodes.factory(case["cls"]), case["depth"], twig_every=40)
-    labels = forest.Labels([root] + left + right + twigs)
+    make = nodes.factory(case["cls"])
+    root, left, right, twigs = big.build_double_ladder(make, case["depth"], twig_every=40)
+    trunk = []
+    if case.get("trunk"):
+        # ... or below a trunk: the fork sits deep down, the two paths share a long prefix
+        trunk = big.build_chain(lambda i: make(10 ** 6 + i), case["trunk"], "parent")
+        root.parent = trunk[-1]
+    labels = forest.Labels(trunk + [root] + left + right + twigs)
     picks_l = [left[i] for i in (0, 1, 62, 63, 64, 65, 127, 128, case["depth"] - 1)] + twigs[:2]
     picks_r = [right[i] for i in (0, 2, 62, 63, 64, 66, 129, case["depth"] - 1)] + [root]
     nontrivial = 0
@@ -258,14 +264,14 @@ def plan(tier, seed):
     tasks = [{"engine": "enum", "max_nodes": max_nodes, "index": i, "count": nshards * 2} for i in range(nshards * 2)]
     tasks += [{"engine": "hyp", "examples": examples, "seed": seed * 1000 + i} for i in range(nshards)]
     tasks += [{"engine": "deep", "depth": d, "cls": c} for d in ((700, 1500) if tier == "quick" else (300, 700, 1500, 3000)) for c in ("Node", "SlotLM", "AnyNode")]
-    tasks += [{"engine": "vee", "depth": d, "cls": c} for d in ((300,) if tier == "quick" else (140, 300, 1200)) for c in ("Node", "SlotLM")]
+    tasks += [{"engine": "vee", "depth": d, "cls": c, "trunk": t} for d in ((300,) if tier == "quick" else (140, 300, 1200)) for c in ("Node", "SlotLM", "EqNode", "EqSlotLM", "LenNode") for t in ((0, 70) if tier == "quick" else (0, 31, 70, 200))]
     tasks += [{"engine": "optimised"}]
     return tasks
 
 
 def run_task(task, acc):
     if task["engine"] == "vee":
-        case = {"kind": "vee", "depth": task["depth"], "cls": task["cls"]}
+        case = {"kind": "vee", "depth": task["depth"], "cls": task["cls"], "trunk": task.get("trunk", 0)}
         exc = acc.evaluate(check_case, case, enumerated=False)
         if exc is not None:
             acc.add_violation(case, exc)
